@@ -29,7 +29,7 @@ REAL = ["rpyc.utils.server (accept loop, per-client threads, pool workers and po
         "the real client stack for good clients (rpyc.connect, SocketStream.connect, socket_backoff_connect)", "rpyc.lib.compat.PollingPoll"]
 STUB = ["bad clients = raw simulated sockets", "kernel/threads/clock (simulator)", "os.fork modelled for the forking server"]
 ASSUMPTIONS = ["kernel fidelity", "liveness budget 5 virtual s after the last bad script finished"]
-PROBES = ["c16:bad-client", "c16:good-client", "c16:silent-midframe", "c16:auth-failure", "c16:fresh-client-served", "c16:forged-id"]
+PROBES = ["c16:bad-client", "c16:good-client", "c16:silent-midframe", "c16:auth-failure", "c16:fresh-client-served", "c16:forged-id", "c16:event-published"]
 CHUNK = 12
 BUDGET = 5.0
 D9A = "all pool workers blocked reading a partial frame"
@@ -39,9 +39,18 @@ BAD_SCRIPTS = ("random", "garbage-brine", "prefix-then-corrupt", "truncated", "b
                "auth-silent", "forged-ids", "bad-message", "newline-flood", "zero-length")
 
 
+NOTIFY_LOG = []
+
+
+def notify(payload):
+    """ONE function object that every well-behaved client subscribes with (same identifier on every connection)"""
+    NOTIFY_LOG.append((core.cur().current.name, payload))
+
+
 def run_one(choices, params):
     import rpyc
     import rpyc.utils.server as RS
+    del NOTIFY_LOG[:]
     from rpyc.utils.authenticators import AuthenticationError
     from rpyc.core.stream import SocketStream
     w = choices.stream("work")
@@ -131,6 +140,9 @@ def run_one(choices, params):
                 st["inst"] = me
                 ref = timed("make", lambda: root.make(i), st["phase"])
                 harvested.append(object.__getattribute__(ref, "____id_pack__"))
+                published = []
+                if not shared:
+                    timed("subscribe", lambda: root.subscribe(notify), st["phase"])
                 for n in range(p["nops"]):
                     if done["bad"] >= nbad:
                         st["phase"] = "after"
@@ -152,6 +164,10 @@ def run_one(choices, params):
                     if not ok:
                         raise core.Violation("good-client-wrong-answer", "good client %d op %d returned %r" % (i, op, r))
                     st["ops"] += 1
+                    if not shared and n % 2 == 0:
+                        timed("publish", lambda: root.publish((i, n)), st["phase"])
+                        published.append((i, n))
+                        sim.count("c16:event-published")
                     sim.sleep(w.pick((0.0, 0.125, 0.5)))
                 # wait for the bad clients' scripts, then one more round under the liveness budget
                 sim.block(lambda: done["bad"] >= nbad, 60, "wait-bad-scripts")
@@ -163,6 +179,15 @@ def run_one(choices, params):
                     r = timed("token-after", lambda: root.get_token(), "after")
                     if r != tok:
                         raise core.Violation("cross-talk", "good client %d reads token %r at the end, it had set %r" % (i, r, tok))
+                if not shared:
+                    # events: every client gets its own, in order, and nobody else's (one more round trip has flushed them)
+                    me_name = sim.current.name
+                    mine = [pl for nm, pl in NOTIFY_LOG if nm == me_name]
+                    if any(pl[0] != i for pl in mine):
+                        raise core.Violation("cross-talk", "good client %d received events published by another client: %r" % (i, mine))
+                    if mine != published:
+                        raise core.Violation("cross-talk", "good client %d published %r and received %r (events of all clients: %r)" % (
+                            i, published, mine, NOTIFY_LOG[:12]))
                 ref = None
                 conn.close()
             except Starved as e:
